@@ -252,8 +252,13 @@ let judge_conc parse_ip cfg (ops : string list) (outs : string list) : verdict =
     let (res, tv) = ans_result a before in
     if !propfail = None then propfail := oracle parse_ip cfg r a res tv;
     { ob_api = r.api; ob_sni = r.sni; ob_vname = r.vname; ob_res = res; ob_tv = tv } in
+  (* SHARED cases: one request, looped; its distinct answers are joined by '|' *)
   let conv i o = List.concat (List.map2 (fun a b ->
-      match parse_req a with Some r -> [ (r, parse_ans b, mk r (parse_ans b)) ] | None -> []) i o) in
+      match parse_req a with
+      | Some r ->
+          if b = "" then raise (Bad "requester-without-answer");
+          List.map (fun b1 -> let an = parse_ans b1 in (r, an, mk r an)) (String.split_on_char '|' b)
+      | None -> []) i o) in
   let ths = List.map2 conv tin tout in
   let flat = List.concat ths in
   let fins = conv fin fout in
@@ -311,9 +316,12 @@ let judge_conc parse_ip cfg (ops : string list) (outs : string list) : verdict =
 let judge _name ins outs =
   try
     match ins with
-    | kind :: v :: o :: ops when (kind = "SEQ" || kind = "CONC")
+    | kind :: v :: o :: ops0 when (kind = "SEQ" || kind = "CONC" || kind = "SHARED")
                                  && String.length v > 1 && v.[0] = 'v' && String.length o >= 1 && o.[0] = 'o' ->
         if outs = ["BADCASE"] then VDisagree "harness-rejected-case" else
+        (* SHARED: n<rounds> p<pause> b<fallback> precede the threads; every ForHost op carries the same fallback *)
+        let ops = if kind = "SHARED" then
+            (match ops0 with _ :: _ :: _ :: r -> r | _ -> raise (Bad "shared-header")) else ops0 in
         let cfg = mk_cfg v o in
         let (body, tab) = split_tab outs in
         let (parse_ip, ip, sp) = build_tables tab in
